@@ -316,6 +316,12 @@ func checkC18(c *Check) {
 				call = cl
 				return
 			}
+			if t.fn == "strconv.ParseInt" && len(t.args) == 2 && t.args[0] == 10 && t.args[1] == 0 && callName(&cl.Call) == "strconv.Atoi" && src(cl.Call.Args[0]) {
+				// and the other way round: ParseInt(s, 10, 0) converted to int is Atoi(s)
+				ok = true
+				call = cl
+				return
+			}
 			if callName(&cl.Call) != t.fn {
 				call = cl
 				return
